@@ -5,7 +5,7 @@ import FcpptModel.Model.C01
 Mirrors `args.cpp`, `args_from_second.cpp`, `getenv.cpp`, `make_optional_error_code.cpp`,
 `filesystem/create_directory.cpp`, `create_directories_recursive.cpp`, `impl/make_range.hpp`
 (`make_directory_range`, `make_recursive_directory_range`), `filesystem/open.hpp`, `open_exn.hpp`,
-`options/impl/flag_name.cpp`, `cast/detail/dynamic.hpp` (+ `dynamic_any`, `dynamic_cross`,
+`system.cpp`, `options/impl/flag_name.cpp`, `cast/detail/dynamic.hpp` (+ `dynamic_any`, `dynamic_cross`,
 `dynamic_pointer_cast`, `unique_ptr_dynamic_cast`), `time/gmtime.cpp`, `time/localtime.cpp`.
 
 What the operating system / the C library answers is an *oracle argument* of each model (an error
@@ -62,6 +62,13 @@ def fsOpenExn (isOpen : Bool) : M Unit :=
   match fsOpen isOpen with
   | some u => .ok u
   | none => .error (.exception (.other "fcppt"))
+
+/-! ## system -/
+
+/-- `fcppt::system` (POSIX): `make_if(WIFEXITED(status), WEXITSTATUS(status))` of the wait status `std::system`
+returns: a command that was killed by a signal has no exit status -/
+def systemResult (status : Nat) : Option Nat :=
+  if status % 128 = 0 then some (status / 256 % 256) else none
 
 /-! ## options::impl::flag_name -/
 
